@@ -257,6 +257,7 @@ def effect(ctx):
 
 @PROP.obligation('C19.truth', canaries=[
     mut.replace_expr('scripts', 'Stack.op_if', 'decode_num(element) == 0', "element == b''", 'op_if tests the raw bytes'),
+    mut.replace_expr('scripts', 'Stack.op_ifdup', "self[-1] != b''", 'decode_num(self[-1]) > 0', 'op_ifdup treats negative numbers as false'),
 ])
 def truth(ctx):
     """Every boolean reading of a stack item (final result, VERIFY, IF/NOTIF, NOT, 0NOTEQUAL, BOOLAND/OR, IFDUP) and every numeric
@@ -285,6 +286,11 @@ def truth(ctx):
                             raw.add("stack item compared with b'' instead of decoded")
                         if all(isinstance(y, tuple) and y[0] == 'in' for y in (a, b)) and h.startswith('op_num'):
                             raw.add('numeric equality decided on the raw bytes')
+                    if isinstance(s, tuple) and s[0] == 'cmp' and s[1] in ('<', '>', '<=', '>=') and not h.startswith('op_num'):
+                        a, b = s[2], s[3]
+                        dec = lambda y: isinstance(y, tuple) and y[0] == 'call' and y[1] == 'decode_num' and y[2] and isinstance(y[2][0], tuple) and y[2][0][0] == 'in'
+                        if (dec(a) and isinstance(b, int)) or (dec(b) and isinstance(a, int)):
+                            raw.add('truth of a stack item read as the ordering `%s`: consensus truth is "decoded number != 0", negative numbers are true' % show(s).replace('decode_num', 'num'))
         if h in ('op_if', 'op_notif'):
             # both arms look alike to the stack model; judge the branch test itself
             for n in walk_no_nested(fn):
